@@ -60,6 +60,11 @@ type ResponderInterceptor struct {
 
 	streams   map[uint32]*localStream
 	streamsMu sync.Mutex
+
+	// closed and resends are guarded by streamsMu: no retransmission goroutine
+	// is started after Close, and Close waits for those that are running.
+	closed  bool
+	resends sync.WaitGroup
 }
 
 type localStream struct {
@@ -95,7 +100,19 @@ func (n *ResponderInterceptor) BindRTCPReader(reader interceptor.RTCPReader) int
 				continue
 			}
 
-			go n.resendPackets(nack)
+			// Close waits for the retransmissions that are under way; none is started once it has begun
+			n.streamsMu.Lock()
+			if n.closed {
+				n.streamsMu.Unlock()
+
+				continue
+			}
+			n.resends.Add(1)
+			n.streamsMu.Unlock()
+			go func() {
+				defer n.resends.Done()
+				n.resendPackets(nack)
+			}()
 		}
 
 		return i, attr, err
@@ -161,7 +178,9 @@ func (n *ResponderInterceptor) Close() error {
 	n.streamsMu.Lock()
 	streams := n.streams
 	n.streams = map[uint32]*localStream{}
+	n.closed = true
 	n.streamsMu.Unlock()
+	defer n.resends.Wait()
 
 	for _, stream := range streams {
 		stream.rtpBufferMutex.Lock()
